@@ -1,5 +1,6 @@
 """C07 — an idempotency key takes effect at most once."""
 from checks.enginelib import *
+from checks import stresslib
 
 META = {
     "text": 'Lean: generic component model Guard (reservation, store lookup, commit, release only after persistence) instantiated for idempotency keys; inductive invariant Guard.step_inv / init_inv (Lemmas/EngineGuard.lean); theorems key_at_most_once (a non-empty key labels at most one entry, persisted or queued, in every accepted event sequence incl. store failures and restarts), key_designates_one_entry, key_survives_restart (a crash keeps persisted entries, every later lookup of the key is answered found), retry_gets_the_entry (a lookup answered found designates the one persisted entry with the key and changes nothing), effect_needs_miss (an entry with a key is only committed under the reservation after a lookup that missed). Tie: trace validation of the real Commander against the component (guard-ik) and the Ack component; oracle: effects per key and equal outcomes of the successful duplicates.',
@@ -10,4 +11,13 @@ META = {
 
 
 def run(ctx):
+    area = stresslib.replay_area(ctx)
+    if area == stresslib.AREA:       # a replay of the stress stage: the bounded search alone
+        ctx.l1()
+        stresslib.run_stress(ctx, 'C07')
+        return
     run_check(ctx, 'C07', ["guard-ik", "ack"], lambda scn, run: sum(1 for q in scn["requests"] if q.get("ik")) >= 2, 'at least two requests share an idempotency key')
+    if area is not None:
+        return
+    # stage 2: the reservation primitive (no scheduling point inside) under truly simultaneous goroutines
+    stresslib.run_stress(ctx, 'C07')
